@@ -100,7 +100,21 @@ def rule_counting(F, R):
                     detail = "comparator(key=%s, element=%s) returns %s" % (key, elem, txt)
             keyarg = pp(args(ub[0])[2])
             ok = ok and keyarg.startswith("m_thresholds")
-        R.check(ok, "R-C20-2", "update counting rule", f.loc(), "a value is counted right of threshold t iff value >= t (upper_bound with element >= key)",
+        elif len(ub) == 1 and callee(ub[0]) == "std::lower_bound" and len(args(ub[0])) == 3:
+            # first element not below the key (default order) - the same boundary; a narrowing of the key is R-C20-1's business
+            k_ = skip(args(ub[0])[2])
+            for _ in range(3):
+                while k_["k"] == "cast" and k_.get("c"):
+                    k_ = skip(k_["c"][0])
+                if k_["k"] == "ref":
+                    var, _b = find_var(f, k_["d"])
+                    if var is not None and var.get("c"):
+                        k_ = skip(var["c"][0])
+                        continue
+                break
+            ok = pp(k_).startswith("m_thresholds")
+            detail = "lower_bound over the values with key %s" % pp(k_)[:40]
+        R.check(ok, "R-C20-2", "update counting rule", f.loc(), "a value is counted right of threshold t iff value >= t (upper_bound with `element >= key`, or lower_bound in the default order)",
                 "counting rule changed: " + detail)
     for f in bins:
         inst = "bin<%s>" % ",".join(f.raw.get("targs", []))
